@@ -1373,6 +1373,9 @@ class Quantity(metaclass=QuantityMeta):
                     pass
                 else:
                     assert unit_from_sym.qty_cls is not None
+                    if cls is not Quantity and cls is not unit.qty_cls:
+                        raise QuantityError(f"Given unit '{unit}' is not a "
+                                            f"'{cls.__name__}' unit.")
                     # the amount must not be quantized in terms of the unit
                     # given by symbol before it gets converted, otherwise it
                     # would be rounded twice
